@@ -236,9 +236,6 @@ theorem handled_eq_library {β ν δ : Type} (lib : Lib β ν δ) (hm : Mono lib
       rw [msgbits_eq] at hpp
       have hedns : isEdns0 heap m.extra = some opt := by
         rw [opt_selection_eq_isEdns0, hsel]; rfl
-      have hlib : libHeap heap m.extra m.hdr.rcode.toNat =
-          (match opt with | some p => libSetExt heap p m.hdr.rcode.toNat | none => heap) := by
-        unfold libHeap; rw [hedns]; cases opt <;> rfl
       cases hq : pureQs lib packBufferSize m.question
           (if (m.compress && msgIsCompressible m) = true then lib.emptyDict else lib.nilDict)
           (headerBytes m (libBits m.hdr)) with
@@ -258,9 +255,13 @@ theorem handled_eq_library {β ν δ : Type} (lib : Lib β ν δ) (hm : Mono lib
         | none =>
           have : ¬ m.hdr.rcode > 0xF := by
             intro hgt; exact hext ⟨rfl, hgt⟩
+          have hlib : libHeap heap m.extra m.hdr.rcode.toNat = heap := by
+            simp only [libHeap, hedns]
           rw [hlib] at hr' ⊢
           simp only [this, if_false, h12, hq', hr']
         | some p =>
+          have hlib : libHeap heap m.extra m.hdr.rcode.toNat = libSetExt heap p m.hdr.rcode.toNat := by
+            simp only [libHeap, hedns]
           rw [hlib] at hr' ⊢
           simp only [h12, if_false, hq', hr']
 
